@@ -370,12 +370,24 @@ where
         match self {
             Node::Leaf { handler, .. } => {
                 //std::println!("Leaf {}", std::str::from_utf8(name).unwrap());
+
+                // Consume header separator and make sure the parameters start with data,
+                // a data separator may only follow a data element
+                let mut check_leading_separator = |tokens: &mut Peekable<Tokenizer>| {
+                    tokens.next_if(|t| matches!(t, Ok(Token::ProgramHeaderSeparator)));
+                    if let Some(Ok(Token::ProgramDataSeparator)) = tokens.peek() {
+                        Err(Error::from(ErrorCode::InvalidSeparator))
+                    } else {
+                        Ok(())
+                    }
+                };
+
                 match next {
                     // "Leaf .." | "Leaf\EOM"
                     Some(Token::ProgramHeaderSeparator | Token::ProgramMessageUnitSeparator)
                     | None => {
                         // Consume the header seperator
-                        tokens.next_if(|t| matches!(t, Ok(Token::ProgramHeaderSeparator)));
+                        check_leading_separator(tokens)?;
 
                         // Execute handler
                         handler.event(device, context, Parameters::with(tokens))
@@ -386,7 +398,7 @@ where
                         tokens.next();
 
                         // Consume header seperator
-                        tokens.next_if(|t| matches!(t, Ok(Token::ProgramHeaderSeparator)));
+                        check_leading_separator(tokens)?;
 
                         // Execute handler
                         let response_unit = response.response_unit()?;
